@@ -303,7 +303,7 @@ def gen_store_spec(rng, size="small"):
         "records": records,
         "globals": g,
         "sections": sorted(sections),
-        "transfer": rng.random() < 0.5,  # ship the records as racecontrol does: to_externalizable() -> bulk_add()
+        "transfer": rng.choice([0, 0, 0, 1, 1, 2, 3, 5]),  # ship the records as racecontrol does: to_externalizable() -> bulk_add()
         "car": rng.choice([["defaults"], ["4gheap", "ea"], "external"]),
         "user_tags": rng.choice([{}, {"intention": "baseline"}, {"名前": "テスト", "n": "1"}]),
     }
